@@ -52,8 +52,15 @@ func genData(r R) map[string]interface{} {
 	if r.Chance(10) {
 		d["z"] = nil
 	}
+	if r.Chance(25) {
+		// one field holding values of different kinds that look alike
+		d["m"] = MixedValues[r.Intn(len(MixedValues))]
+	}
 	return d
 }
+
+// MixedValues look alike across kinds: equality must not coerce them.
+var MixedValues = []interface{}{"1", 1.0, "01", "1.0", true, "true", 0.0, "0", false, "", "x"}
 
 type GraphOpts struct {
 	MaxV, MaxE int
